@@ -24,3 +24,5 @@ def run(prog, rep):
     _rio8.run_type_gate(prog, rep)
     _rio8.run_rank_gate(prog, rep)
     _rio8.run_set_extent(prog, rep)
+    from ..rules import r_mbt as _mbt8
+    _mbt8.run_replace_dups(prog, rep)
